@@ -393,3 +393,13 @@ func IsPkgConst(info *types.Info, e ast.Expr, pkgPath, name string) bool {
 	c := ConstObj(info, e)
 	return c != nil && c.Pkg() != nil && c.Pkg().Path() == pkgPath && c.Name() == name
 }
+
+// IsBuiltin reports whether call invokes the named builtin.
+func IsBuiltin(info *types.Info, call *ast.CallExpr, name string) bool {
+	id, ok := Unparen(call.Fun).(*ast.Ident)
+	if !ok {
+		return false
+	}
+	b, ok := info.Uses[id].(*types.Builtin)
+	return ok && b.Name() == name
+}
